@@ -201,12 +201,13 @@ impl KademliaRoutingTable {
         self.buckets[bucket_index].remove_node(node_id)
     }
 
-    fn contains(&self, node_id: &NodeId) -> bool {
+    fn address_of(&self, node_id: &NodeId) -> Option<String> {
         let bucket_index = self.get_bucket_index(node_id);
         self.buckets[bucket_index]
             .get_nodes()
             .iter()
-            .any(|n| &n.id == node_id)
+            .find(|n| &n.id == node_id)
+            .map(|n| n.address.clone())
     }
 
     fn find_closest_nodes(&self, key: &DhtKey, count: usize) -> Vec<NodeInfo> {
@@ -1379,11 +1380,12 @@ impl DhtCoreEngine {
         if node.id == self.node_id {
             return Ok(());
         }
-        {
-            let mut routing = self.routing_table.write().await;
-            if routing.contains(&node.id) {
-                return routing.add_node(node);
-            }
+        // A listed peer seen again at the same address only has its entry
+        // refreshed. At a new address it goes through the gates for that address;
+        // the slots of the old address are returned once the entry has moved.
+        let listed_address = self.routing_table.read().await.address_of(&node.id);
+        if listed_address.as_deref() == Some(node.address.as_str()) {
+            return self.routing_table.write().await.add_node(node);
         }
 
         // 1. Security Check: Close Group Validator
@@ -1472,6 +1474,9 @@ impl DhtCoreEngine {
         if let Err(e) = inserted {
             self.release_admission_slots(&address).await;
             return Err(e);
+        }
+        if let Some(old_address) = listed_address {
+            self.release_admission_slots(&old_address).await;
         }
 
         // 5. Update Metrics
